@@ -368,7 +368,11 @@ impl TryFrom<Envelope> for Response {
         let result = envelope.assertion_with_predicate(known_values::RESULT);
         let error = envelope.assertion_with_predicate(known_values::ERROR);
 
-        if result.is_ok() == error.is_ok() {
+        // Presence is decided on the assertions themselves: a repeated result
+        // or error must not hide the fact that both kinds are there.
+        let has_result = !envelope.assertions_with_predicate(known_values::RESULT).is_empty();
+        let has_error = !envelope.assertions_with_predicate(known_values::ERROR).is_empty();
+        if has_result == has_error {
             bail!("Invalid response - must have either a result or an error, but not both")
         }
 
